@@ -32,9 +32,9 @@ def run(ctx):
     ctx.assumptions += ['"the documented reload normalisation" is the identity for the values used here (default schedulers are never removed, '
                         'no deprecated flag is set)', 'the served configuration includes the default placement rule derived from the replication section']
     ctx.mc('config', 'MC_ConfigPersist', 'MC_ConfigPersist.cfg', timeout=600)
-    seeds = [ctx.seed] if q else [ctx.seed + k for k in range(4)]
+    seeds = [ctx.seed] if q else [ctx.seed + k for k in range(8)]
     for sd in seeds:
-        behs = ctx.simulate('config', 'MC_ConfigPersist', 'Sim_ConfigPersist.cfg', num=40 if q else 200, depth=30, seed=sd)
+        behs = ctx.simulate('config', 'MC_ConfigPersist', 'Sim_ConfigPersist.cfg', num=40 if q else 500, depth=30, seed=sd)
         bj = os.path.join(ctx.dir, 'behs.json')
         json.dump(behs, open(bj, 'w'))
         tr = os.path.join(ctx.dir, 'config_%d.ndjson' % sd)
